@@ -708,7 +708,7 @@ Qed.
 
 Lemma inv_empty : inv [] empty_stores.
 Proof.
-  constructor; cbn; intros; try reflexivity; split; try intros []; intros [[] _].
+  constructor; cbn; intros; try reflexivity; (split; [intros []|intros [[] _]]).
 Qed.
 
 Lemma cons_inj (p : N) (a b : str) : p :: a = p :: b -> a = b.
@@ -864,17 +864,18 @@ Proof.
     not_mem_str, asked_iff. tauto.
 Qed.
 
+Lemma lookup_one_bucket simple complex p E c :
+  lookup_one simple complex p E c =
+  (if mem_str c simple && negb (mem_str (p :: c) E) then [p :: c] else []) ++
+  filter (fun s => negb (mem_str s E)) (bucket c complex).
+Proof. unfold lookup_one, bucket. destruct (map_get c complex); reflexivity. Qed.
+
 Lemma lookup_one_nodup_class G E c :
   NoDup G -> NoDup (lookup_one (simple_class (build G)) (complex_class (build G)) DOT E c).
 Proof.
-  intros HG. destruct (build_inv G) as [Hsc Hcc _ _ _]. unfold lookup_one.
-  fold (bucket c (complex_class (build G))).
+  intros HG. destruct (build_inv G) as [Hsc Hcc _ _ _]. rewrite lookup_one_bucket.
   assert (Hb : NoDup (filter (fun s => negb (mem_str s E)) (bucket c (complex_class (build G))))).
   { rewrite Hcc. apply NoDup_filter, NoDup_filter, HG. }
-  replace (match map_get c (complex_class (build G)) with
-           | Some b => filter (fun s => negb (mem_str s E)) b | None => [] end)
-    with (filter (fun s => negb (mem_str s E)) (bucket c (complex_class (build G))))
-    by (unfold bucket; destruct (map_get c (complex_class (build G))); reflexivity).
   destruct (mem_str c (simple_class (build G)) && negb (mem_str (DOT :: c) E)) eqn:E1; [|exact Hb].
   cbn [app]. constructor; [|exact Hb]. intros Hin. apply filter_In in Hin as [Hin _].
   rewrite Hcc in Hin. apply filter_In in Hin as [_ Hin]. apply place_eqb_eq, classify_cc in Hin as [_ Hin].
@@ -884,14 +885,9 @@ Qed.
 Lemma lookup_one_nodup_id G E c :
   NoDup G -> NoDup (lookup_one (simple_id (build G)) (complex_id (build G)) HASHC E c).
 Proof.
-  intros HG. destruct (build_inv G) as [_ _ Hsi Hci _]. unfold lookup_one.
-  fold (bucket c (complex_id (build G))).
+  intros HG. destruct (build_inv G) as [_ _ Hsi Hci _]. rewrite lookup_one_bucket.
   assert (Hb : NoDup (filter (fun s => negb (mem_str s E)) (bucket c (complex_id (build G))))).
   { rewrite Hci. apply NoDup_filter, NoDup_filter, HG. }
-  replace (match map_get c (complex_id (build G)) with
-           | Some b => filter (fun s => negb (mem_str s E)) b | None => [] end)
-    with (filter (fun s => negb (mem_str s E)) (bucket c (complex_id (build G))))
-    by (unfold bucket; destruct (map_get c (complex_id (build G))); reflexivity).
   destruct (mem_str c (simple_id (build G)) && negb (mem_str (HASHC :: c) E)) eqn:E1; [|exact Hb].
   cbn [app]. constructor; [|exact Hb]. intros Hin. apply filter_In in Hin as [Hin _].
   rewrite Hci in Hin. apply filter_In in Hin as [_ Hin]. apply place_eqb_eq, classify_ci in Hin as [_ Hin].
@@ -976,3 +972,34 @@ Proof.
   apply andb_true_iff in B as [_ B]. apply not_mem_str in B. auto.
 Qed.
 End Stores.
+
+(* ------------------------------------------------------------------ examples: the hypotheses of
+   the conditional theorems are satisfiable on non-trivial inputs *)
+Lemma nodupb_NoDup l : nodupb l = true -> NoDup l.
+Proof.
+  induction l as [|x l IH]; cbn; intros H; [constructor|].
+  apply andb_true_iff in H as [A B]. constructor; [|auto]. apply not_mem_str. exact A.
+Qed.
+
+Open Scope string_scope.
+Definition ex_uw (c : N) : bool := N.eqb c 233.   (* only U+00E9 is a word character here *)
+Definition ex_G : list str :=
+  [bs ".ad"; bs ".ad > b"; bs ".\61 d.x"; bs "#x"; bs "#x\.y p"; bs "div[ad]"; bs ".\110000 z"; bs "."].
+
+Example ex_key_escaped : key_from_selector ex_uw (bs ".\31 0\.x > a") = Some (bs ".10.x").
+Proof. vm_compute. reflexivity. Qed.
+Example ex_key_bad_hex : key_from_selector ex_uw (bs ".a\110000 b") = None.
+Proof. vm_compute. reflexivity. Qed.
+Example ex_key_items :
+  lead_items ex_uw (bs "\31 0\.x > a") = ([HexEsc (bs "31"); Lit (bs "0"); CharEsc (bs "."); Lit (bs "x")], bs " > a").
+Proof. vm_compute. reflexivity. Qed.
+Example ex_lookup_hyps : NoDup ex_G /\ NoDup [bs "ad"; bs "zz"] /\ NoDup [bs "x"; bs "x.y"].
+Proof. repeat split; apply nodupb_NoDup; vm_compute; reflexivity. Qed.
+Example ex_lookup :
+  hidden (build ex_uw ex_G) [bs "ad"; bs "zz"] [bs "x"; bs "x.y"] [bs ".ad > b"]
+  = [bs ".ad"; bs ".\61 d.x"; bs "#x"; bs "#x\.y p"].
+Proof. vm_compute. reflexivity. Qed.
+Example ex_misc : misc (build ex_uw ex_G) = [bs "div[ad]"; bs ".\110000 z"; bs "."].
+Proof. vm_compute. reflexivity. Qed.
+Example ex_reach : In (bs ".\61 d.x") ex_G /\ key_from_selector ex_uw (bs ".\61 d.x") = Some (bs ".ad").
+Proof. split; [cbn; auto 10|vm_compute; reflexivity]. Qed.
